@@ -14,6 +14,7 @@ import Dmn.Model.RefParserLayout
 * `(c06 esc <form> <c>)` → `(e <model> <spelling…>)`: what the lexer model makes of the
   escape `form ∈ {u4, u6, sur}` spelling the code point, and the hex digit values written.
 * `(c06 gap (s c…))` → `(left n)`: the number of code points `GapLayout.skipGap` leaves.
+* `(c06 nextis (s chars…) (s c…))` → `(b true|false)`: `GapLayout.nextIs` (`is_next_character`) on the text.
 * `(c06 table)` → the levels the model reads from `Gen/Prec.lean`.
 
 Trees: `(a n 3)` `(a u 5)` `(a l 2)` `(bin add L R)` `(neg E)` `(between E LO HI)`
@@ -336,6 +337,11 @@ def handle (args : List Sexp) : String :=
     match cs.mapM Sexp.nat? with
     | some cs => toString (Sexp.list [.atom "left", Sexp.ofNat (GapLayout.skipGap cs).length])
     | none => "(error bad-request)"
+  | [.atom "nextis", .list (.atom "s" :: chars), .list (.atom "s" :: cs)] =>
+    -- `is_next_character(chars, …)` on the text after a keyword
+    match chars.mapM Sexp.nat?, cs.mapM Sexp.nat? with
+    | some chars, some cs => toString (Sexp.list [.atom "b", Sexp.ofBool (GapLayout.nextIs chars cs)])
+    | _, _ => "(error bad-request)"
   | [.atom "table"] =>
     let bins : List BinOp := [.or, .and, .eq, .nq, .lt, .le, .gt, .ge, .in_, .add, .sub, .mul, .div, .exp]
     toString (Sexp.list (.atom "table" ::
